@@ -20,6 +20,8 @@ def family(name):
         return tuple(_wide(parts[1]))
     if parts[0] == 'd3':
         return tuple(_d3(parts[1], parts[2]))
+    if parts[0] in ('conn1', 'conn2', 'closure', 'conn2s', 'conn1s'):
+        return tuple(_conn(parts))
     leaf_ids = _leafids(parts[0])
     policy = parts[1]
     w = 3 if (len(parts) > 2 and parts[2] == 'w3') else 2
@@ -109,3 +111,26 @@ def shards_for(names, per_shard):
         for lo in range(0, n, per_shard):
             out.append((nm, lo, min(n, lo + per_shard)))
     return out
+
+
+def _conn(parts):
+    """conn1/<leaves>/<policy>[/a3]   depth-1 connective formulas
+       conn2/<leaves>/<policy>[/a3]   depth-2 (outer <=2 args unless a3; inner <=2 args)
+       conn1s, conn2s                 same with explicitly signed AtLeast(k<=0 / sign=-1) variants
+       closure/<leaves>/<policy>      Not(X), Imply(X,z), Imply(z,X), XNor(X,z) for every depth-2 X (z = fresh leaf 'z')"""
+    kind, leaves, policy = parts[0], _leafids(parts[1]), parts[2]
+    a3 = len(parts) > 3 and parts[3] == 'a3'
+    signed = kind.endswith('s')
+    if kind in ('conn1', 'conn1s'):
+        base = spaces.conn_d1(leaves, 3 if a3 else 2, with_signed=signed)
+    elif kind in ('conn2', 'conn2s'):
+        base = spaces.conn_d2(leaves, 3 if a3 else 2, 2, with_signed=signed)
+    else:
+        z = L('z')
+        base = []
+        for X in spaces.conn_d2(leaves, 2, 2):
+            base.append(spaces.C('Not', None, [X]))
+            base.append(spaces.C('Imply', None, [X, z]))
+            base.append(spaces.C('Imply', None, [z, X]))
+            base.append(spaces.C('XNor', None, [X, z]))
+    return [spaces.name_ids(f, policy) for f in base]
